@@ -23,7 +23,7 @@ MAP = {
     "C13_m1": [("C13", "rgrow.count20,chunk.seq")], "C13_m2": [("C13", None)],
     "C14_m1": [("C14", "embed_open")], "C14_m2": [("C14", None)],
     "C15_m1": [("C15", "sg.pcm_16le.float.FAULT")], "C15_m2": [("C15", "alac.close")],
-    "C16_m1": [("C16", None)], "C16_m2": [("C16", "alac.close")],
+    "C16_m1": [("C16", "chunkseq.aiff.s2,chunkseq.aiff.s3")], "C16_m2": [("C16", "alac.close")],
     "C17_m1": [("C17", "cmd.SFC_GET_CUE,cmd.SFC_SET_CUE")], "C17_m2": [("C17", "calc.SFC_CALC_SIGNAL_MAX.ch1"), ("C18", "calc.SFC_CALC_SIGNAL_MAX.ch1")],
     "C18_m1": [("C18", "peak.float32.float.ch1")], "C18_m2": [("C18", "calc.SFC_CALC_MAX_ALL_CHANNELS.ch2")],
     "C19_m1": [("C19", "fileio.ownership")], "C19_m2": [("C19", None)],
